@@ -510,8 +510,9 @@ func TestVerifRQWindow(t *testing.T) {
 		}
 		_ = a.close()
 	}
-	// --- scenario C (D12): a peer that respects the advertised window, an application that does not read,
-	//     and the peer closing (resetting) its outgoing stream after its data was acknowledged ---
+	// --- scenario C (former D12 witness, repaired by 243f816; kept as a regression): a peer that respects the advertised
+	//     window, an application that does not read, and the peer closing (resetting) its outgoing stream after its data
+	//     was acknowledged: the unread bytes of the reset streams keep counting, so the peer is stopped after one buffer ---
 	{
 		buf := uint32(4096)
 		a := rqBareAssoc(buf, false, 1)
